@@ -27,6 +27,16 @@ CLAIMED['C01'] = (
     'float rounding and the sampled correspondence trusted (DESIGN §5)',
     'Lean 4 proof over an exact rational model + whole-run snapshot correspondence')
 
+CLAIMED['C04'] = (
+    'Lean theorems over the exact cash-flow model for every construction period, lifetime and series: construction-year CAPEX shares, '
+    'operating-year revenue (energy x price, + carbon) - O&M, cumulative = running sum, NPV = discounted sum under both conventions, '
+    'VIR/MOIC definitions, payback lies within a turn year (repaired loop) / is 0 = N/A when there is none, with the kernel-checked '
+    'counterexample for the loop as it stood on the pinned tree (defect F5, fixed in /repo); tied to the code on every run by whole runs '
+    '(reported series and metrics vs exact model; IRR clause via the exact NPV at the reported rate; add-on project cash flow likewise).',
+    'kernel + propext/Classical.choice/Quot.sound; IRR value is numerical (numpy_financial) and only its defining clause is checked; float '
+    'rounding and the sampled correspondence trusted (DESIGN §5)',
+    'Lean 4 proof over an exact rational model + whole-run snapshot correspondence')
+
 PENDING_REASON = 'check not built yet in this commit (work in progress; see DESIGN.md §9 for the order)'
 
 
